@@ -230,6 +230,14 @@ func (e *Engine) censusT(sc *Script, cs []*callRun) {
 func (e *Engine) releaseCtxWaiters(sc *Script, cs []*callRun) {
 	for _, c := range cs {
 		if cur, _ := c.h.cur.Load().(string); cur == "WaitCtx" && atomic.LoadInt32(&c.cancelled) != 0 {
+			// the environment's own delay (the server side noticing that the
+			// client has gone) must not count against the library
+			if gates.releaseOne("env") {
+				e.rest(sc)
+				if cur, _ := c.h.cur.Load().(string); cur != "WaitCtx" {
+					continue
+				}
+			}
 			select {
 			case c.h.release <- struct{}{}:
 			default:
@@ -269,7 +277,7 @@ func (e *Engine) RunSched(sc *Script) []Ev {
 			if !gates.releaseOne(who) {
 				return
 			}
-		case "g:snd", "g:cls", "g:rcv", "g:rd", "g:wat", "g:hsv", "g:cpy", "g:cln":
+		case "g:snd", "g:cls", "g:rcv", "g:rd", "g:wat", "g:hsv", "g:cpy", "g:cln", "g:env":
 			if !gates.releaseOne(who[2:]) {
 				return
 			}
